@@ -42,6 +42,22 @@ def run(eng, rep) -> None:
     rep.rule("R16.6", "units: the cursor and word widths are bits, len(store) and byte counts are bytes; comparisons and sums do not mix them (>>3, //8, *8 convert)")
     rep.rule("R16.2", "decoded counts bound only loops that read on every iteration; no allocation sized by a decoded value")
     rep.rule("R16.3", "decode() creates its buffer per call, fills it from the input only, and reads from bit 0")
+    rep.rule("R16.7", "a size computed by walking down a nested type (the bound that a single up-front check relies on) accumulates over every level")
+    from ..dataflow import head_reads_in_descent, overwrites_in_descent
+    n_desc = 0
+    for f_ in eng.prog.functions.values():
+        if f_.module.name != "fcp.serde":
+            continue
+        n_desc += 1
+        for w_, st_, txt_ in overwrites_in_descent(f_.node):
+            rep.violation("R16.7", f_.file, f_.qual, txt_[:70], "the loop walks down the nested array type and replaces the element count at every level instead of multiplying it in: only the innermost dimension counts, the computed size is too small, and whatever is read on the strength of a bounds check against it runs past the input")
+        for w_, st_, txt_ in head_reads_in_descent(f_.node):
+            rep.violation("R16.7", f_.file, f_.qual, txt_[:70], "the loop walks down the nested type but takes the size of the type it started from at every level: for nested arrays of different sizes the computed size is wrong")
+    rep.ok("R16.7", "-", "-", "descent loops over nested types in the codec", "%d functions scanned" % n_desc)
+    rep.rule("R16.8", "running out of input is not turned into a quiet end of iteration (a short islice of a generator that ends by itself, StopIteration inside map())")
+    from .lints import short_islice, stopiteration_in_map
+    short_islice(eng, rep, "R16.8", ("fcp.serde",), "a truncated message decodes to fewer elements than its count says, with no error")
+    stopiteration_in_map(eng, rep, "R16.8", ("fcp.serde",), "a truncated message decodes to a shorter value, with no error")
     rep.assume("fixed-size array loops (range(type.size)) assume size >= 1 ([[u8, 0]] is the pathological schema)")
     cc = find_cursor_class(eng)
     pr = Prims(eng, cc)
